@@ -1,6 +1,7 @@
 package main
 
 import (
+	"os"
 	"go/ast"
 	"go/constant"
 	"go/token"
@@ -51,15 +52,36 @@ func (p *Program) stringTable(rel, name string) ([]string, token.Pos) {
 					if n.Name != name || i >= len(vs.Values) {
 						continue
 					}
+					// the table is a constant of the program: a literal, or an expression over literals (groups joined
+					// by a helper, appends) whose value the abstract evaluator computes from the package initialiser
+					viaInit := func() ([]string, token.Pos) {
+						v, und := evalGlobal(p, rel, name)
+						if os.Getenv("VERIF_DEBUG") != "" {
+							println("DEBUG evalGlobal", rel, name, describeAval(v), und)
+						}
+						sl, ok := v.(avals)
+						if und != "" || !ok {
+							return nil, n.Pos()
+						}
+						var out []string
+						for _, c := range sl.cells {
+							s, ok := c.f[""].(astr)
+							if !ok {
+								return nil, n.Pos()
+							}
+							out = append(out, string(s))
+						}
+						return out, n.Pos()
+					}
 					cl, ok := vs.Values[i].(*ast.CompositeLit)
 					if !ok {
-						return nil, n.Pos()
+						return viaInit()
 					}
 					var out []string
 					for _, e := range cl.Elts {
 						tv, ok := pk.TypesInfo.Types[e]
 						if !ok || tv.Value == nil || tv.Value.Kind() != constant.String {
-							return nil, n.Pos()
+							return viaInit()
 						}
 						out = append(out, constant.StringVal(tv.Value))
 					}
